@@ -323,7 +323,7 @@ def eff(e, n=0, s=""):
 COMPAT = {
     "send": ["addr", "owning", "sender", "wsender"], "call": ["addr", "owning", "caller", "wcaller"],
     "ping": ["addr", "owning"], "stop": ["addr"], "halt": ["addr"], "restart": ["addr"],
-    "try_stop": ["waddr"], "try_halt": ["waddr"], "await": ["addr"], "await_ref": ["addr"],
+    "force_send": ["wsender"], "try_stop": ["waddr"], "try_halt": ["waddr"], "await": ["addr"], "await_ref": ["addr"],
     "stopped": ["addr", "waddr"], "running": ["addr"],
     "clone": ["addr", "sender", "caller", "waddr", "wsender", "wcaller"],
     "drop": ["addr", "owning", "sender", "caller", "waddr", "wsender", "wcaller"],
@@ -435,7 +435,7 @@ class Prog:
                 o["d"] = rng.choice([0, 0, 1, 2, 3])
             elif op in ("send", "call", "ping", "await_ref", "try_halt", "halt", "await", "consume") and rng.random() < self.cancel_p:
                 o["d"] = 1          # poll once, drop if still pending
-            if op in ("send", "call"):
+            if op in ("send", "call", "force_send"):
                 o["scr"] = self.scripts() if callable(self.scripts) else rng.choice(self.scripts)
             if (op, k) in NEWKIND:
                 nh = self.fresh()
